@@ -35,6 +35,7 @@ func c17(c *Ctx) {
 	c17R5(c, "R5")
 	c17R6(c, "R6")
 	c17R7(c, "R7")
+	sMainSendsBuffered(c, "R8/S-MAINSEND")
 }
 
 func loopSelect(c *Ctx, fn *ssa.Function) *ssa.Select {
